@@ -82,17 +82,20 @@ func sortedMap(m map[string]string) string {
 }
 
 func runGuess(content []byte, l *layout) (snap, goroot, gopaths, gomods string) {
+	gpCopy := append([]string{}, l.localGopaths...)
+	opts := &stack.Opts{LocalGOROOT: l.localGoroot, LocalGOPATHs: gpCopy, GuessPaths: true}
+	snap, goroot, gopaths, gomods = runGuessOpts(content, opts)
+	// the caller's options value is shared between scans: it must come back untouched
+	if strings.Join(gpCopy, "\x00") != strings.Join(l.localGopaths, "\x00") && !strings.HasPrefix(snap, "PANIC") {
+		snap = "OPTS-MODIFIED"
+	}
+	return
+}
+
+func runGuessOpts(content []byte, opts *stack.Opts) (snap, goroot, gopaths, gomods string) {
 	defer func() {
 		if e := recover(); e != nil {
 			snap = "PANIC:" + strings.ReplaceAll(fmt.Sprint(e), "\t", " ")
-		}
-	}()
-	gpCopy := append([]string{}, l.localGopaths...)
-	opts := &stack.Opts{LocalGOROOT: l.localGoroot, LocalGOPATHs: gpCopy, GuessPaths: true}
-	defer func() {
-		// the caller's options value is shared between scans: it must come back untouched
-		if strings.Join(gpCopy, "\x00") != strings.Join(l.localGopaths, "\x00") && !strings.HasPrefix(snap, "PANIC") {
-			snap = "OPTS-MODIFIED"
 		}
 	}()
 	rd := &scriptedReader{rest: append([]byte{}, content...), final: finalOf("eof"), w: &recWriter{}}
@@ -111,10 +114,20 @@ func emitGuess(id string, content []byte, l *layout, expect string) {
 	snap, goroot, gopaths, gomods := runGuess(content, l)
 	// determinism (C06): the same again, several times
 	det := "1"
-	for i := 0; i < 6; i++ {
+	for i := 0; i < 4; i++ {
 		s2, g2, p2, m2 := runGuess(content, l)
 		if s2 != snap || g2 != goroot || p2 != gopaths || m2 != gomods {
 			det = "0"
+		}
+	}
+	// ... and with ONE options value reused for successive scans, as a long-running caller does
+	if snap != "OPTS-MODIFIED" && !strings.HasPrefix(snap, "PANIC") {
+		shared := &stack.Opts{LocalGOROOT: l.localGoroot, LocalGOPATHs: append([]string{}, l.localGopaths...), GuessPaths: true}
+		for i := 0; i < 3; i++ {
+			s2, g2, p2, m2 := runGuessOpts(content, shared)
+			if s2 != snap || g2 != goroot || p2 != gopaths || m2 != gomods {
+				det = "0"
+			}
 		}
 	}
 	var gps []string
@@ -251,6 +264,17 @@ func opGuess(r *rand.Rand, n int, tier string, seed int64) {
 			frames = append(frames, gfile{remote: innerR + "/src/foo/" + fb, class: stack.GOPATH, pkg: "foo", name: "B", ambiguous: true})
 			frames = append(frames, gfile{remote: outerR + "/src/pkgz/" + fc, local: outerL + "/src/pkgz/" + fc, rel: "pkgz/" + fc, imp: "pkgz", class: stack.GOPATH, pkg: "pkgz", name: "Z"})
 		}
+		// the same package present in two GOPATHs (first listed wins: not predicted), and a file only the second one has
+		if r.Intn(6) == 0 {
+			g1, g2 := base+"/gpd1", base+"/gpd2"
+			l.localGopaths = append(l.localGopaths, g1, g2)
+			fa, fz := fname(), fname()
+			l.add(g1+"/src/dup/pkg/"+fa, "package x\n")
+			l.add(g2+"/src/dup/pkg/"+fa, "package x\n")
+			l.add(g2+"/src/only2/"+fz, "package x\n")
+			frames = append(frames, gfile{remote: "/remote/dupA/src/dup/pkg/" + fa, class: stack.GOPATH, pkg: "pkg", name: "D", ambiguous: true})
+			frames = append(frames, gfile{remote: "/remote/dupB/src/only2/" + fz, local: g2 + "/src/only2/" + fz, rel: "only2/" + fz, imp: "only2", class: stack.GOPATH, pkg: "only2", name: "O"})
+		}
 		// local modules (paths are the same remotely and locally)
 		for m := 0; m < r.Intn(3); m++ {
 			root := fmt.Sprintf("%s/proj%d", base, m)
@@ -263,6 +287,10 @@ func opGuess(r *rand.Rand, n int, tier string, seed int64) {
 				gomod = "module\t  " + modpath + "\n"
 			case 2:
 				gomod = "go 1.21\nmodule " + modpath
+			case 3: // a licence header: the module directive comes late in the file
+				if r.Intn(2) == 0 {
+					gomod = strings.Repeat("// Copyright The Authors. Licensed under the Apache License, Version 2.0.\n", 2+r.Intn(12)) + "\n" + gomod
+				}
 			}
 			l.add(root+"/go.mod", gomod)
 			for k := 0; k < 1+r.Intn(3); k++ {
@@ -285,7 +313,11 @@ func opGuess(r *rand.Rand, n int, tier string, seed int64) {
 			if r.Intn(3) == 0 {
 				// a module nested in this one: its files belong to the inner module
 				inner := root + "/nested"
-				l.add(inner+"/go.mod", "module example.com/nested"+fmt.Sprint(m)+"\n")
+				hdr := ""
+				if r.Intn(2) == 0 {
+					hdr = strings.Repeat("// Copyright The Authors. Licensed under the Apache License, Version 2.0.\n", 8+r.Intn(6)) + "\n"
+				}
+				l.add(inner+"/go.mod", hdr+"module example.com/nested"+fmt.Sprint(m)+"\n")
 				f := fname()
 				l.add(inner+"/"+f, "package x\n")
 				frames = append(frames, gfile{remote: inner + "/" + f, local: inner + "/" + f, rel: f, imp: "example.com/nested" + fmt.Sprint(m), class: stack.GoMod, pkg: "main", name: "N"})
